@@ -150,7 +150,7 @@ var reqLines = []string{"GET http://@/r HTTP/1.1", "GET http://@/r HTTP/1.0", "G
 
 var hdrBlocks = []string{"", "Range: bytes=0-3\r\n", "Range: bytes=\r\n", "Range: bytes=5\r\n", "Range: bytes=-\r\nX-mode: retry\r\n", "Range: bytes=50-60\r\nX-mode: retry\r\n", "Range: bytes=0-1\r\nRange: bytes=2-3\r\n",
 	"Range: bytes=18446744073709551616-\r\n", "If-Range: \r\nRange: bytes=0-1\r\n", "If-Range: \"x\"\r\nRange: bytes=0-1\r\n", "If-Range: Mon, 02 Jan 2006 15:04:05 GMT\r\nRange: bytes=0-1\r\n", "If-Range: garbage\r\nRange: bytes=9-9\r\n",
-	"Cache-Control: \r\n", "Cache-Control: max-age=abc\r\n", "If-Modified-Since: garbage\r\n", "If-None-Match: \r\nIf-Match: \r\n", "Connection: \r\n", "Connection: ,,,\r\n", "Connection: Range\r\nRange: bytes=0-0\r\n",
+	"Cache-Control: \r\n", "Cache-Control: max-age=abc\r\n", "Cache-Control: max-age=\"\r\n", "Cache-Control: no-cache=\", max-age=\"5\r\n", "If-Modified-Since: garbage\r\n", "If-None-Match: \r\nIf-Match: \r\n", "Connection: \r\n", "Connection: ,,,\r\n", "Connection: Range\r\nRange: bytes=0-0\r\n",
 	"X-Big: " + strings.Repeat("a", 70000) + "\r\n", "Bad Header: x\r\n", ": empty-name\r\n", "X-NUL: a\x00b\r\n", "Content-Length: -1\r\n", "Content-Length: 5\r\nContent-Length: 6\r\n", "Transfer-Encoding: chunked\r\nContent-Length: 3\r\n",
 	"Transfer-Encoding: gzip\r\n", "Expect: 100-continue\r\nContent-Length: 3\r\n", "Upgrade: websocket\r\nConnection: upgrade\r\n", "Proxy-Authorization: Basic !!!\r\n", "Accept-Encoding: gzip\r\n", "Host: second.test\r\n"}
 
@@ -168,7 +168,7 @@ var originAnswers = []string{"", "", "", "@416-unless-plain@", "@416-unless-plai
 	"HTTP/1.1 200 OK\r\nTransfer-Encoding: chunked\r\n\r\nzz\r\nabc\r\n0\r\n\r\n", "HTTP/1.1 200 OK\r\nTransfer-Encoding: chunked\r\n\r\n3\r\nabc\r\n", "HTTP/1.1 200\r\n\r\n", "HTTP/1.1 999 Weird\r\nContent-Length: 0\r\n\r\n",
 	"HTTP/1.1 20 Short\r\n\r\n", "HTTP/9.9 200 OK\r\n\r\n", "garbage\r\n\r\n", "", "HTTP/1.1 200 OK\r\nBad Header\r\n\r\n", "HTTP/1.1 200 OK\r\nCache-Control: max-age=60\r\nContent-Length: 0\r\n\r\n", "HTTP/1.1 304 Not Modified\r\n\r\n",
 	"HTTP/1.1 206 Partial Content\r\nContent-Range: bytes 5-2/3\r\nContent-Length: 3\r\n\r\nabc", "HTTP/1.1 416 Range Not Satisfiable\r\nContent-Length: 0\r\n\r\n", "HTTP/1.1 100 Continue\r\n\r\nHTTP/1.1 200 OK\r\nContent-Length: 2\r\n\r\nok",
-	"HTTP/1.1 200 OK\r\nExpires: 0\r\nCache-Control: no-store, max-age=abc\r\nContent-Length: 1\r\n\r\nx", "HTTP/1.1 204 No Content\r\nContent-Length: 5\r\n\r\nabcde", "HTTP/1.1 200 OK\r\nContent-Encoding: gzip\r\nContent-Length: 3\r\n\r\nabc",
+	"HTTP/1.1 200 OK\r\nExpires: 0\r\nCache-Control: no-store, max-age=abc\r\nContent-Length: 1\r\n\r\nx", "HTTP/1.1 200 OK\r\nCache-Control: max-age=\"\r\nContent-Length: 1\r\n\r\nx", "HTTP/1.1 200 OK\r\nCache-Control: public, max-age=\"60\r\nCache-Control: \"\r\nContent-Length: 1\r\n\r\nx", "HTTP/1.1 204 No Content\r\nContent-Length: 5\r\n\r\nabcde", "HTTP/1.1 200 OK\r\nContent-Encoding: gzip\r\nContent-Length: 3\r\n\r\nabc",
 	"HTTP/1.1 301 Moved\r\nLocation: http://[::1\r\nContent-Length: 0\r\n\r\n", "HTTP/1.1 200 OK\r\nETag: \r\nLast-Modified: garbage\r\nContent-Length: 1\r\n\r\nx", "HTTP/1.1 200 OK\r\nX: " + strings.Repeat("b", 100000) + "\r\n\r\n"}
 
 var connectTargets = []string{"@", "@", "@", "localhost", "@:", ":443", "[::1]:443", "[::1", "a:b:c", "", "*", "localhost:99999", "\x00:1", "127.0.0.1:1"}
